@@ -305,12 +305,14 @@ class TCPPacketGenerator(Device, OutMixIn):
         )
         self.congestion_control.timer_expired()
 
-        # retransmit the segment
-        self.resend_packet(packet_id)
-
-        # start a new timer for this segment and doubling the RTO
+        # double the RTO and re-arm the timer of this segment first: the
+        # retransmission below may bring the ACK back synchronously, which
+        # stops and removes the timer
         self.rto *= 2
         self.timers[packet_id].restart(self.rto)
+
+        # retransmit the segment
+        self.resend_packet(packet_id)
 
     def put(self, ack: Packet):
         """Upon receiving an acknowledgement packet"""
